@@ -7,6 +7,9 @@ using namespace wc;
 #ifndef VK_UNSUB
 #define VK_UNSUB 0          // 0: async_subscribe, 1: async_unsubscribe
 #endif
+#ifndef VK_DROP
+#define VK_DROP 0            // how the connection dies: 0 reset, 1 eof / broken pipe, 2 aborted, 3 any of them (forked)
+#endif
 #ifndef VK_MODE
 #define VK_MODE 14          // 14: verdict monitor, 2: no-loss monitor
 #endif
@@ -105,7 +108,7 @@ struct X {
     deliver(0); vk_reach("bad-ack");
   }
   void ev_reconnect() {
-    if (w.connected()) { if (nreconn >= 1) vk_assume(0); nreconn++; w.drop_connection(); vk::drain(); }
+    if (w.connected()) { if (nreconn >= 1) vk_assume(0); nreconn++; w.drop_connection_any(VK_DROP); vk::drain(); }
     else if (!w.attempt_in_progress()) vk_assume(0);
     bool ok = w.establish(); vk_assert(ok, "the client reconnects after a connection loss");
     w.send_connack(true, 0, nullptr, 0); w.feed_all(); vk::drain(); vk_reach("reconnected");
